@@ -1,10 +1,11 @@
-\* C14 design-level check, universe C (thorough): variations of A -- 8x8 and 12x8 dies, cycle and star around the
-\* fixed module, two places of the fixed module (one beyond the spans of the movable ones), one step per dimension.
+\* C14 design-level check, universe C (thorough): variations of A -- 8x8 die, cycle and star around the
+\* fixed module, two places of the fixed module (one beyond the spans of the movable ones), one step per dimension;
+\* the fixed module is the square or a fixed terminal (a pin without area).
 SPECIFICATION Spec
 CONSTANTS
-  HalfSet <- HalfAT
+  HalfSet <- HalfA
   Profiles <- ProfA
-  AreaProfiles <- AreaA
+  AreaProfiles <- AreaAT
   Graphs = {"cycle", "starL"}
   FixSet <- FixAT
   TrialSet = {1}
